@@ -3,12 +3,12 @@
 mod complex;
 mod geom;
 mod nf;
-mod variants;
 mod oracle;
 mod props;
 mod run;
 mod stats;
 mod tables;
+mod variants;
 
 fn main() {
     let args: Vec<String> = std::env::args().collect();
@@ -17,7 +17,12 @@ fn main() {
         std::process::exit(2);
     }
     if args[1] == "--scenario" && args.len() >= 6 {
-        std::process::exit(props::c03::scenario_child(&args[2], args[3].parse().unwrap(), &args[4], &args[5]));
+        std::process::exit(props::c03::scenario_child(
+            &args[2],
+            args[3].parse().unwrap(),
+            &args[4],
+            &args[5],
+        ));
     }
     unsafe {
         // allocation-heavy enumeration on 16 threads: keep freed memory in the arenas (less page-fault churn)
@@ -25,8 +30,15 @@ fn main() {
         libc::mallopt(libc::M_TOP_PAD, 256 << 20);
         libc::mallopt(libc::M_MMAP_THRESHOLD, 1 << 30);
     }
-    let threads = std::env::var("VERIF_THREADS").ok().and_then(|s| s.parse().ok()).unwrap_or(16);
-    rayon::ThreadPoolBuilder::new().num_threads(threads).stack_size(16 << 20).build_global().unwrap();
+    let threads = std::env::var("VERIF_THREADS")
+        .ok()
+        .and_then(|s| s.parse().ok())
+        .unwrap_or(16);
+    rayon::ThreadPoolBuilder::new()
+        .num_threads(threads)
+        .stack_size(16 << 20)
+        .build_global()
+        .unwrap();
     if args[1] == "--merge-evidence" {
         std::process::exit(props::c03::merge_evidence(&args[2], &args[3], &args[4..]));
     }
@@ -41,7 +53,11 @@ fn main() {
         println!("clauses failing now: {:?}", clauses);
         let want = case["clause"].as_str().unwrap_or("");
         if clauses.iter().any(|c| c == want) {
-            println!("REPRODUCED property={} clause={}", case["prop"].as_str().unwrap_or("?"), want);
+            println!(
+                "REPRODUCED property={} clause={}",
+                case["prop"].as_str().unwrap_or("?"),
+                want
+            );
             std::process::exit(1);
         }
         println!("NOT-REPRODUCED (the recorded clause does not fail on the current tree)");
@@ -60,6 +76,10 @@ fn main() {
         "C08" => props::c08::run(tier),
         "C09" => props::c09::run(tier),
         "C10" => props::c10::run(tier),
+        "C13" => props::c13::run(tier),
+        "C14" => props::c14::run(tier),
+        "C15" => props::c15::run(tier),
+        "C16" => props::c16::run(tier),
         _ => {
             eprintln!("unknown property {prop}");
             2
@@ -77,6 +97,10 @@ pub fn replay_case(case: &serde_json::Value, verbose: bool) -> Vec<String> {
         "C08" => props::c08::replay(case, verbose),
         "C09" => props::c09::replay(case, verbose),
         "C10" => props::c10::replay(case, verbose),
+        "C13" => props::c13::replay(case, verbose),
+        "C14" => props::c14::replay(case, verbose),
+        "C15" => props::c15::replay(case, verbose),
+        "C16" => props::c16::replay(case, verbose),
         p => panic!("no replay for property {p}"),
     }
 }
@@ -95,7 +119,10 @@ pub fn dbg_witness() {
                 let w = crate::oracle::witnesses(&edges, spec.tol(crate::run::Ft::F64));
                 if w.skipped > 0 && shown < 3 {
                     shown += 1;
-                    println!("{kind} a={a} b={b} skipped {} of {} edges {:?}", w.skipped, w.sides, edges);
+                    println!(
+                        "{kind} a={a} b={b} skipped {} of {} edges {:?}",
+                        w.skipped, w.sides, edges
+                    );
                 }
             }
         }
